@@ -731,7 +731,29 @@ class Expander:
                 names = re.findall(r'(?m)^\s*(?:pub(?:\([a-z]+\))?\s+)?(\w+)\s*:', body)
                 want = [x.strip() for x in kv['expect'].split(',') if x.strip()]
                 if names != want:
-                    raise AnchorLost('struct %s in %s has fields %s, the stand-in declares %s' % (kv['name'], kv['file'], names, want))
+                    # a struct that GAINED fields of plain types (a cache, a flag, a counter) keeps its stand-in: the new fields are added to
+                    # the re-declared struct with their own types, so that the functions that use them are still decided.  Anything
+                    # else (a field removed, renamed, reordered, or of a type the units do not model) is UNDECIDED.
+                    plain_ = r'(?:bool|usize|u8|u32|u64|i32|i64|f64|String|Vec<(?:usize|String|bool|i64|u8)>|Option<(?:usize|String|bool|i64)>)'
+                    decls_ = dict((m_.group(1), m_.group(2).strip().rstrip(',')) for m_ in re.finditer(r'(?m)^\s*(?:pub(?:\([a-z]+\))?\s+)?(\w+)\s*:\s*([^\n]+?),?\s*$', body))
+                    extra_ = [n_ for n_ in names if n_ not in want]
+                    kept_ = [n_ for n_ in names if n_ in want]
+                    ok_ = kept_ == want and extra_ and all(re.fullmatch(plain_, decls_.get(n_, '')) for n_ in extra_)
+                    at_ = None
+                    if ok_:
+                        for j_ in range(i + 1, min(i + 4, len(lines))):
+                            if re.match(r'\s*pub struct %s\b' % re.escape(kv['name']), lines[j_]):
+                                for k_ in range(j_ + 1, len(lines)):
+                                    if lines[k_].strip() == '}':
+                                        at_ = k_
+                                        break
+                                break
+                    if not ok_ or at_ is None:
+                        raise AnchorLost('struct %s in %s has fields %s, the stand-in declares %s' % (kv['name'], kv['file'], names, want))
+                    if not lines[at_ - 1].rstrip().endswith(','):
+                        lines[at_ - 1] = lines[at_ - 1].rstrip() + ','
+                    lines[at_:at_] = ['    pub %s: %s,   // (field added in the tree under test: taken over as declared there)' % (n_, decls_[n_]) for n_ in extra_]
+                    self.local_rewrites.append({'fn': 'struct ' + kv['name'], 'regex': '<fields>', 'replacement': '<new plain fields taken over: %s>' % ', '.join(extra_), 'count': len(extra_)})
                 self.items.append({'file': kv['file'], 'kind': 'struct-fields-checked', 'name': kv['name'], 'lines': [src_.line_of(hs), src_.line_of(bc)]})
                 lines[i] = '// fields of %s checked against %s: %s' % (kv['name'], kv['file'], ', '.join(names))
                 continue
